@@ -295,14 +295,17 @@ def x_eq(ctx, case):
     from testtools.content import Content
     from testtools.content_type import ContentType
 
-    def build(d):
+    class LogContent(Content):
+        """A Content subclass (like TracebackContent / StackLinesContent): still equal by type and bytes."""
+
+    def build(d, cls=Content):
         ct = ContentType(d["type"], d["sub"], dict(d["params"]))
         data = bytes.fromhex(d["hex"])
         parts = _split(data, d["cuts"], d["empties"])
-        return Content(ct, lambda: list(parts)), (d["type"], d["sub"], dict(d["params"]), data)
+        return cls(ct, lambda: list(parts)), (d["type"], d["sub"], dict(d["params"]), data)
 
-    a, ka = build(case["a"])
-    b, kb = build(case["b"])
+    a, ka = build(case["a"], LogContent if case.get("subclass") in ("a", "both") else Content)
+    b, kb = build(case["b"], LogContent if case.get("subclass") == "both" else Content)
     want = ka == kb
     ctx.check((a == b) == want, "eq.agrees", lambda: {"a==b": a == b, "want": want})
     ctx.check((b == a) == want, "eq.agrees", lambda: {"b==a": b == a, "want": want})
@@ -342,6 +345,21 @@ def x_ctype(ctx, case):
     ctx.check(not leaks and text == "caf\xe9" and repr(others[0]) == "text/x-log", "ctype.parameters-not-shared",
               lambda: {"leaked": leaks, "charset-less text decoded as": text, "rendered": repr(others[0])})
     del one.parameters["charset"], one.parameters["header"]
+    # ... nor do two attachments that arrive with the same MIME string share one ContentType object
+    import testtools
+    got = []
+    s2d = testtools.StreamToDict(got.append)
+    s2d.startTestRun()
+    for tid in ("a", "b"):
+        s2d.status(test_id=tid, file_name="f", file_bytes=b"x", mime_type=rendered)
+        s2d.status(test_id=tid, test_status="success")
+    s2d.stopTestRun()
+    ct_a, ct_b = (d["details"]["f"].content_type for d in got)
+    ct_a.parameters["x-edited"] = "1"
+    again = _make_content_type(rendered)
+    ctx.check("x-edited" not in ct_b.parameters and again == ct, "ctype.parameters-not-shared",
+              lambda: {"mime string": rendered, "second attachment's parameters after editing the first's": ct_b.parameters,
+                       "a later parse": [again.type, again.subtype, again.parameters]})
     return bool(case["params"])
 
 
@@ -572,7 +590,7 @@ def run(ctx):
 
     for i in range(ctx.scale(4000, 160000)):
         a = rand_content_desc()
-        ctx.execute("eq", {"a": a, "b": rand_content_desc(a)})
+        ctx.execute("eq", {"a": a, "b": rand_content_desc(a), "subclass": rng.choice([None, None, "a", "both"])})
     # ---- ctype ----------------------------------------------------------------
     types = ["text", "application", "image", "x-foo", "a.b+c"]
     subs = ["plain", "octet-stream", "x-traceback", "json", "vnd.a+b", "x.y-z_1"]
